@@ -136,6 +136,7 @@ def install(w, rule_name, A):
                    assumptions=("T-unfold(attr_violations_upto)",))
     w.loop(Q_VA, 2, inv=loop2_inv, axioms=loop2_axioms)
     con.accept = accept
+    con.count = lambda s, node: v1(s, node) + cntv(s, node, s.dn(attrs(s, node)))
     con.accept_named = aok
     con.entry_axioms = axioms
     con.use_named = lambda: setattr(raises_cond, "named", True)
